@@ -375,7 +375,7 @@ impl Ctx {
         }
         b
     }
-    /// (commentText, linesCount, h18) from the model
+    /// (commentText, linesCount, long form? `true|false|empty`) from the model
     fn comment_text(&mut self, text: &str) -> (Vec<u8>, usize, String) {
         if let Some(t) = self.text_cache.get(text) {
             return t.clone();
@@ -384,7 +384,7 @@ impl Ctx {
         let parts: Vec<&str> = ans.split(' ').collect();
         let ct = unhex(parts[0]).unwrap_or_else(|| panic!("bad comment_text answer: {}", ans));
         let n: usize = parts[1].parse().unwrap();
-        let h = self.model.ask(&format!("c18.h18 {}", hex(text.as_bytes())));
+        let h = self.model.ask(&format!("c18.long_form {}", hex(text.as_bytes())));
         let r = (ct, n, h);
         self.text_cache.insert(text.to_owned(), r.clone());
         r
@@ -787,12 +787,13 @@ fn judge(ctx: &mut Ctx, case: &Case, witness_mode: bool) -> Outcome {
     }
     match case {
         Case::Append { text, loc, src } => {
-            let (ct, nlines, h18) = ctx.comment_text(text);
-            let inside = h18 == "true" || h18 == "empty";
-            o.hist("append_region", format!("{}:{}", loc.name(), match h18.as_str() {
+            let (ct, nlines, form) = ctx.comment_text(text);
+            // (F20/F21 are fixed: every text is inside the proved region, `append_safe_full`)
+            let inside = true;
+            o.hist("append_region", format!("{}:{}", loc.name(), match form.as_str() {
                 "empty" => "empty text",
-                "true" => if text.contains('\n') { "multi-line" } else { "single-line inside H18" },
-                _ => "outside H18 (F20/F21)",
+                "true" => if text.contains('\n') { "long form: multi-line" } else { "long form: CR or long-bracket opener" },
+                _ => "single-line form",
             }));
             // Where the real rule attached the comment: the number of code tokens written before the
             // comment that holds it (first such comment for `start`, last for `end`). The model attaches
@@ -867,12 +868,15 @@ fn judge(ctx: &mut Ctx, case: &Case, witness_mode: bool) -> Outcome {
             let lo = ctx.lex(&out);
             for (name, what) in &fails {
                 if name == "O4" {
-                    o.count("F25_end_shifts_lines");
-                    continue;
-                }
-                if !inside && !witness_mode {
-                    o.count("oracle_fails_outside_H18");
-                    continue;
+                    // F32: the comment is attached to the last *statement* token; block-level tokens written
+                    // after it (the final `;`, the rest of a union type) are pushed down by the comment.
+                    // Excused only there: every token before the attach point must keep its line.
+                    let (rl, bl) = (lo.lines(), lbase.lines());
+                    let tail_only = real_pos.map(|p| p < bl.len() && rl.len() == bl.len() && rl[..p] == bl[..p]).unwrap_or(false);
+                    if tail_only && !witness_mode {
+                        o.count("F32_tokens_behind_the_attached_comment_move");
+                        continue;
+                    }
                 }
                 // F27 at the end of a file: the last comment of the file, or the appended comment itself, is a
                 // line comment the generator takes for a long one; what is written next is glued to it
@@ -889,6 +893,8 @@ fn judge(ctx: &mut Ctx, case: &Case, witness_mode: bool) -> Outcome {
             }
             // --- correspondence: token model (code, comments up to merging, lines)
             let oracle_ok = fails.iter().all(|f| f.0 == "O4");
+            // the model's shift: `lines().count()` of the comment for `start`, none for `end`
+            let nlines = if *loc == Loc::Start { nlines } else { 0 };
             if inside && !ct.is_empty() && oracle_ok && corr_fail.is_none() {
                 // position-free: the comment exists exactly once more than before …
                 if lo.coms.len() == lbase.coms.len() + 1 {
